@@ -411,7 +411,10 @@ def check_property(pid, tier, seed):
     out_lines = []
     try:
         ensure_replay_bin()
-        results = [verify_unit(u) for u in cfg["units"]]
+        import concurrent.futures
+        pool = concurrent.futures.ThreadPoolExecutor(max_workers=8)
+        canary_futs = {u: pool.submit(canary_unit, u) for u in cfg["units"]}
+        results = [f.result() for f in [pool.submit(verify_unit, u) for u in cfg["units"]]]
         # ---- obligations
         relevant_fail = []
         labelled = []
@@ -430,9 +433,20 @@ def check_property(pid, tier, seed):
                     relevant_fail.append(f)
             tm = r["res"]["json"].get("times-ms", {})
             smt_ms += tm.get("smt", {}).get("smt-run", 0)
+            names_for_pid = set()
+            for fn in meta["functions"]:
+                if pid in fn["props"]:
+                    names_for_pid.add(fn["name"])
+            # renamed trait methods
+            for fn in meta["functions"]:
+                if pid in fn["props"] and fn.get("gen_name"):
+                    names_for_pid.add(fn["gen_name"])
             for mod in tm.get("smt", {}).get("smt-run-module-times", []):
                 for fb in mod.get("function-breakdown", []):
-                    fn_rows.append((r["unit"], fb["function"], fb.get("success"), fb.get("time-micros"), fb.get("rlimit")))
+                    short = fb["function"].split("::")[-1]
+                    is_lemma = fb.get("mode:") == "proof"
+                    if is_lemma or short in names_for_pid:
+                        fn_rows.append((r["unit"], fb["function"], fb.get("success"), fb.get("time-micros"), fb.get("rlimit")))
             for fn in meta["functions"]:
                 if pid in fn["props"]:
                     functions_under_contract.append({"fn": fn["id"], "repo": "%s:%d-%d" % (fn["file"], fn["line_start"], fn["line_end"]),
@@ -469,7 +483,7 @@ def check_property(pid, tier, seed):
         if not relevant_fail:
             can = {}
             for u in cfg["units"]:
-                can[u] = canary_unit(u)
+                can[u] = canary_futs[u].result()
                 if can[u]["vacuous"]:
                     raise Inconclusive("vacuity guard: `ensures false` verified for %s in unit %s (contradictory precondition or shim?)" % (can[u]["vacuous"], u))
             cov["vacuity_canary"] = can
